@@ -4452,12 +4452,14 @@ class ParseCtx:
                 i += 1
                 if contents[i] == "x" or contents[i] == "u":
                     if contents[i] == "u":
-                        raise NotImplementedError("don't support uescapes yet")
+                        raise IllegalParseTree("Unicode escapes are not supported, in string literal " + escaped_string)
                     code = contents[i+1:i+3]
+                    if len(code) != 2 or any(c not in string.hexdigits for c in code):
+                        raise IllegalParseTree("Invalid \\x escape (two hexadecimal digits are required) in string literal " + escaped_string)
                     result += chr(int(code, base=16))
                     i += 3
                 else:
-                    result += {
+                    escapes = {
                         'n': '\n',
                         'r': '\r',
                         't': '\t',
@@ -4465,7 +4467,10 @@ class ParseCtx:
                         '0': '\x00',
                         '"': '"',
                         '\\': '\\'
-                    }[contents[i]]
+                    }
+                    if contents[i] not in escapes:
+                        raise IllegalParseTree("Unknown escape sequence \\" + contents[i] + " in string literal " + escaped_string)
+                    result += escapes[contents[i]]
                     i += 1
         return result
 
